@@ -68,6 +68,10 @@ def main():
         # committed ones (generated from /repo) back
         subprocess.run(["git", "-C", ROOT, "checkout", "--", "coq/theories/Gen", "harness/src/gen"], stderr=subprocess.DEVNULL)
         subprocess.run(["git", "-C", "/repo", "worktree", "remove", "--force", wt])
+        # ... and regenerate them from /repo, so that the shared development never keeps (and nobody commits) the
+        # translation of a seeded tree even if the committed copy was itself stale
+        subprocess.run([sys.executable, os.path.join(ROOT, "tools", "gen_rustfn.py"), "/repo"],
+                       env={k: v for k, v in os.environ.items() if k != "VERIF_REPO"}, stdout=subprocess.DEVNULL)
         tag = hashlib.sha1(wt.encode()).hexdigest()[:10]
         for d in os.listdir(os.path.join(ROOT, ".cache")):
             if d.endswith(tag) or d.endswith(tag + ".lock"):
